@@ -642,6 +642,10 @@ func genForest(r *rand.Rand, tag string) forest {
 			iv = theory.Interval{N: 1, Q: theory.Perfect}
 		}
 		name := fmt.Sprintf("Z%s%dq", tag, j)
+		if j%2 == 1 {
+			// the short names musicians use differ in case only (M3 / m3): the odd ones are the even ones in lower case
+			name = strings.ToLower(fmt.Sprintf("Z%s%dq", tag, j-1))
+		}
 		f.attrs = append(f.attrs, userAttr{Name: name, Degree: iv.Notation()})
 		f.sizes[name] = s
 	}
@@ -812,11 +816,43 @@ func writeDictFiles(c *core.Ctx, r *rand.Rand, f forest) []string {
 	for j := 0; j+1 < len(cc); j++ {
 		files = append(files, c.Scratch.File([]string{"chord.yml", "songs$book.yml", "ch ord ~ ${y}.yml", "$PATH.yml"}[r.Intn(4)], preamble(chordsYAML(chords[cc[j]:cc[j+1]]))))
 	}
+	// a definition file reached through a symbolic link and "..": cur -> lib/album, cur/../x.yml is lib/x.yml; the
+	// file a lexical clean-up of the path would name holds an empty dictionary
+	if len(files) > 0 && r.Intn(4) == 0 {
+		root := c.Scratch.Path("dict-links")
+		os.MkdirAll(filepath.Join(root, "lib", "album"), 0o755)
+		os.Symlink(filepath.Join("lib", "album"), filepath.Join(root, "cur"))
+		k := r.Intn(len(files))
+		if b, err := os.ReadFile(files[k]); err == nil {
+			os.WriteFile(filepath.Join(root, "lib", "band.yml"), b, 0o644)
+			os.WriteFile(filepath.Join(root, "band.yml"), []byte("[]\n"), 0o644)
+			files[k] = root + "/cur/../band.yml"
+		}
+	}
 	if len(files) > 1 && r.Intn(3) == 0 {
 		args = append(args, "--chord", strings.Join(files, ","))
 	} else {
 		for _, fn := range files {
 			args = append(args, "--chord", fn)
+		}
+	}
+	// a file named a second time, behind a file that redefines one of its entries: the file given last wins, so the
+	// dictionary is what it was (the wrapper script that always appends the house dictionary)
+	if len(files) > 0 && len(f.chords) > 0 && len(f.attrs) > 0 && r.Intn(4) == 0 {
+		victim := chords[cc[len(cc)-2]] // the first chord of the last file
+		over := c.Scratch.File("override.yml", chordsYAML([]userChord{{Name: victim.Name, Display: victim.Display, Attrs: []string{"Perfect1", "Augmented4"}}}))
+		args = append(args, "--chord", over, "--chord", files[len(files)-1])
+		lastAttr := f.attrs[ac[len(ac)-2]]
+		overA := c.Scratch.File("override-attr.yml", attrsYAML([]userAttr{{Name: lastAttr.Name, Degree: "#11"}}))
+		var attrFile string
+		for j := len(args) - 1; j > 0; j-- {
+			if args[j-1] == "--attr" {
+				attrFile = args[j]
+				break
+			}
+		}
+		if attrFile != "" {
+			args = append(args, "--attr="+overA, "--attr", attrFile)
 		}
 	}
 	return args
@@ -1024,6 +1060,11 @@ func brokenDictCase(c *core.Ctx, i int, r *rand.Rand) {
 		sym = "zunnamed"
 	}
 	doc := model.Piece{Inst: []model.Instance{{Chord: &model.ChordSpec{Deg: theory.Interval{N: 1, Q: theory.Perfect}, Symbol: sym}, Values: one()}}}.YAML(model.YAMLStyle{})
+	if i%5 == 3 {
+		// a piece that looks nothing up (rests only): the dictionary it is given is inconsistent all the same
+		doc = model.Piece{Inst: []model.Instance{{Values: one()}, {Values: one(), Meta: map[string]string{"txt": "tacet"}}}}.YAML(model.YAMLStyle{})
+		desc["piece"] = "rests only"
+	}
 	cmds := [][]string{
 		append([]string{"write"}, args...),
 		append([]string{"write", "event"}, args...),
